@@ -283,6 +283,61 @@ class Fn:
             return " | ".join(outs), {}
         raise Unsupported("pattern " + k)
 
+    def format_bytes(self, toks, env):
+        """format!("lit{name}lit{}", args..) as the concatenation of byte lists: literal text, named captures, positional
+        arguments; a `{x:02x}` piece is two lower-case hex digits of the byte x (spec format_bytes maps piece -> template)"""
+        if not toks or toks[0][0] != "str":
+            raise Unsupported("format! without a literal format string")
+        fmt = toks[0][1]
+        if fmt.startswith('"') and fmt.endswith('"'):
+            fmt = fmt[1:-1]
+        args, cur, depth = [], [], 0
+        for tk in toks[1:]:
+            depth += tk[0] == "op" and tk[1] in ("(", "[", "{")
+            depth -= tk[0] == "op" and tk[1] in (")", "]", "}")
+            if tk == ("op", ",") and depth == 0:
+                if cur:
+                    args.append(cur)
+                cur = []
+            else:
+                cur.append(tk)
+        if cur:
+            args.append(cur)
+        args = [R.Parser(a).expr() for a in args]
+        parts, i, lit = [], 0, ""
+        def flush():
+            nonlocal lit
+            if lit:
+                parts.append("[%s]" % "; ".join(str(b) for b in lit.encode()))
+                lit = ""
+        while i < len(fmt):
+            c = fmt[i]
+            if c == "{":
+                j = fmt.index("}", i)
+                piece = fmt[i + 1:j]
+                flush()
+                name, _, spec_ = piece.partition(":")
+                val = self.ex(args.pop(0), env) if name == "" else self.var(name) if name in env else None
+                if val is None:
+                    raise Unsupported("format! captures the unknown name %s" % name)
+                if spec_ == "":
+                    parts.append(val)
+                elif spec_ in self.spec["format_bytes"]:
+                    parts.append(self.apply(self.spec["format_bytes"][spec_], [val]))
+                else:
+                    raise Unsupported("format! piece {%s}" % piece)
+                i = j + 1
+            elif c == "\\" and i + 1 < len(fmt) and fmt[i + 1] == "0":
+                lit += "\0"
+                i += 2
+            else:
+                lit += c
+                i += 1
+        flush()
+        if args:
+            raise Unsupported("format! with unused arguments")
+        return "(" + " ++ ".join(parts or ["[]"]) + ")"
+
     # ------------------------------------------------------------ pure expressions
     def ex(self, e, env):
         k = e[0]
@@ -463,6 +518,8 @@ class Fn:
             if key in self.calls:
                 return self.apply(self.calls[key][0], [self.ex(a, env) for a in [recv] + args])
             raise Unsupported("method .%s()" % name)
+        if k == "macro" and e[1] == "format" and self.spec.get("format_bytes"):
+            return self.format_bytes(e[2], env)
         if k == "macro":
             if e[1] == "matches":
                 toks = e[2]
@@ -761,6 +818,10 @@ class Fn:
                 if n and n[0] == "mcall" and n[1][0] == "path" and len(n[1][1]) == 1 and (n[1][1][0] + "." + n[2]) in self.spec.get("updates", {}):
                     if n[1][1][0] not in out:
                         out.append(n[1][1][0])
+                if n and n[0] == "let" and len(n) == 5 and n[1] == ("pwild",) and n[3] is not None and n[3][0] == "macro" and n[3][1] == "write" \
+                        and n[3][2] and n[3][2][0][0] == "id" and self.spec.get("format_bytes"):
+                    if n[3][2][0][1] not in out:
+                        out.append(n[3][2][0][1])
                 if n and n[0] == "expr" and n[1][0] == "mcall" and n[1][2] in MUTATORS:
                     v = root(n[1][1])
                     if v is not None and v not in out:
@@ -832,6 +893,10 @@ class Fn:
                     raise Unsupported("a printing loop with an unknown line format %s" % fmt0)
                 return "let %s := %s ++ %s in %s" % (pr, pr, self.ex(s[2], env), after(env))
             return after(env)
+        if k == "let" and s[1][0] == "pwild" and s[3] is not None and s[3][0] == "macro" and s[3][1] == "write" and self.spec.get("format_bytes") \
+                and len(s[3][2]) >= 3 and s[3][2][0][0] == "id" and s[3][2][1] == ("op", ",") and s[3][2][0][1] in env:
+            tgt = s[3][2][0][1]
+            return "let %s := %s ++ %s in %s" % (self.var(tgt), self.var(tgt), self.format_bytes(list(s[3][2][2:]), env), after(env))
         if k == "let" and s[1][0] == "pbind" and s[1][1] in self.spec.get("print_only_lets", ()):
             def uses(n):
                 if isinstance(n, tuple):
@@ -2170,6 +2235,80 @@ def functions():
     out.append(("run_patch", "src/bin/copia/main.rs run_patch", None, t_cli("run_patch", "basis", "patched", "g_run_patch")))
     out.append(("run_delta", "src/bin/copia/main.rs run_delta", None, t_cli("run_delta", "source", "delta", "g_run_delta")))
 
+    def t_short_hex(path, name, gname):
+        def go():
+            src = read(path)
+            params, ret, body = R.find_fn(src, name, None)
+            if len(params) != 1 or params[0][0] != "h":
+                raise Unsupported("signature of %s is %s" % (name, params))
+            def dropuse(n):
+                if isinstance(n, tuple):
+                    if n and n[0] == "block":
+                        ss, it = [], iter(list(n[1]))
+                        for st in it:
+                            if st[0] == "expr" and st[1] == ("path", ["use"]):
+                                for st2 in it:          # `use a::b as _;` : skip to the end of the item
+                                    if st2[0] == "expr" and st2[2]:
+                                        break
+                                continue
+                            ss.append(dropuse(st))
+                        return ("block", ss, dropuse(n[2]) if n[2] is not None else None)
+                    return tuple(dropuse(x) for x in n)
+                if isinstance(n, list):
+                    return [dropuse(x) for x in n]
+                return n
+            spec = dict(format_bytes={"02x": "hex2 {0}"}, calls={"String::with_capacity": ("(@nil Z) (* {0} *)", "String")})
+            fn = Fn(spec)
+            text = fn.block(dropuse(body), {"h": "[u8;32]"}, Ctx(val=(lambda x: x), ret=(lambda x: x), fall=None))
+            return "Definition %s (h : list Z) : list Z :=\n  %s." % (gname, text)
+        return go
+    out.append(("short_hex", "src/bin/copia/bidir.rs short_hex", None, t_short_hex("src/bin/copia/bidir.rs", "short_hex", "g_short_hex")))
+    out.append(("short_hash", "src/bin/copia/wire.rs short_hash", None, t_short_hex("src/bin/copia/wire.rs", "short_hash", "g_short_hash")))
+
+    def t_loser_name():
+        src = read("src/bin/copia/bidir.rs")
+        params, ret, body = R.find_fn(src, "apply", None)
+        found = []
+        def walk(n):
+            if isinstance(n, (list, tuple)):
+                if len(n) >= 4 and n[0] == "let" and n[1] == ("pbind", "loser_name"):
+                    found.append(n)
+                for c in n:
+                    walk(c)
+        walk(body)
+        if len(found) != 1 or found[0][3][0] != "block":
+            raise Unsupported("apply: `let loser_name = { .. };` not found")
+        spec = dict(format_bytes={"02x": "hex2 {0}"}, str_literals=True,
+                    fields={("Fingerprint", "blake3"): ("{0}", "[u8;32]")}, calls={"short_hex": ("g_short_hex {0}", "String"), "PathBuf::from": ("{0}", "PathBuf")},
+                    updates={"n.push": "{0} ++ {1}"})
+        fn = Fn(spec)
+        env = {"rel": "Path", "host": "str", "lose_fp": "Fingerprint"}
+        text = fn.tail(found[0][3], env, Ctx(val=(lambda x: x), ret=None, fall=None))
+        return "Definition g_loser_name (rel host lose_fp : list Z) : list Z :=\n  %s." % text
+    out.append(("loser_name", "src/bin/copia/bidir.rs apply: the conflict-copy name", None, t_loser_name))
+
+    def t_hub_conflict_name():
+        src = read("src/bin/copia/serve.rs")
+        params, ret, body = R.find_fn(src, "handle_put", None)
+        found = []
+        def walk(n):
+            if isinstance(n, tuple) and n and n[0] == "block":
+                ss = list(n[1])
+                for i in range(len(ss) - 1):
+                    if ss[i][0] == "let" and ss[i][1] == ("pbind", "cn") and ss[i + 1][0] == "expr" and ss[i + 1][1][0] == "mcall" and ss[i + 1][1][1] == ("path", ["cn"]):
+                        found.append(("block", [ss[i], ss[i + 1]], ("path", ["cn"])))
+            if isinstance(n, (list, tuple)):
+                for c in n:
+                    walk(c)
+        walk(body)
+        if len(found) != 1:
+            raise Unsupported("handle_put: `let mut cn = ..; cn.push(..);` not found")
+        spec = dict(format_bytes={"02x": "hex2 {0}"}, calls={"super::wire::short_hash": ("g_short_hash {0}", "String")}, updates={"cn.push": "{0} ++ {1}"})
+        fn = Fn(spec)
+        text = fn.tail(found[0], {"dst": "Path", "hash": "[u8;32]"}, Ctx(val=(lambda x: x), ret=None, fall=None))
+        return "Definition g_hub_conflict_name (dst hash : list Z) : list Z :=\n  %s." % text
+    out.append(("hub_conflict_name", "src/bin/copia/serve.rs handle_put: the conflict-copy name", None, t_hub_conflict_name))
+
     def t_run_remote():
         src = read("src/bin/copia/incremental.rs")
         params, ret, body = R.find_fn(src, "run_remote", None)
@@ -2256,6 +2395,7 @@ GROUPS = {
     "WireMagic": ("Model.Wire", False, ["read_magic"]),
     "WireFrame": ("Model.Wire", "wireframe", ["read_frame"]),
     "BisyncApply": ("", "bisync", ["apply"]),
+    "ConflictName": ("", "conflictname", ["short_hex", "short_hash", "loser_name", "hub_conflict_name"]),
     "HubDelete": ("", "hubseq", ["handle_delete", "handle_put"]),
     "BisyncRun": ("", "bisyncrun", ["run_bisync"]),
     "HubSync": ("", "hubsync", ["hub_sync"]),
@@ -2431,6 +2571,9 @@ def main():
                      "Inductive kfile := KSource | KInput | KBasis | KOutput.\nDefinition block_size_of (z : Z) : Z := z.\n"
                      "Inductive keff := KRead (f : kfile) | KFail | KEngine (bs : Z) | KOpen (f : kfile) | KCreate (f : kfile) | KPatch | KDelta | KWrite (f : kfile) | KDone.\n\n"
                      + "\n".join(texts))
+        elif digest == "conflictname":
+            body = (HEADER % (group, "")).replace(" .\n", ".\n") + ("\n(* `{b:02x}`: two lower-case hexadecimal digits of a byte *)\n"
+                    "Definition hexd (n : Z) : Z := if n <? 10 then 48 + n else 87 + n.\nDefinition hex2 (b : Z) : list Z := [hexd (b / 16); hexd (b mod 16)].\n\n" + "\n".join(texts))
         elif digest == "archivesys":
             body = (HEADER % (group, imports)) + "\nSection WithFs.\nVariable path_exists : apath -> bool.   (* path.exists() *)\n\n" + "\n".join(texts) + "End WithFs.\n"
         elif digest == "onewaysys":
